@@ -7,7 +7,7 @@ mkdir -p bin evidence work
 cd harness
 go build -o ../bin/driver ./cmd/driver
 if [ "$1" = "--warm" ]; then
-  go build -tags verif -o /dev/null ./cmd/... 2>&1 || true
-  go build -tags verif -race -o /dev/null ./cmd/... 2>&1 || true
+  mkdir -p ../work/warm && go build -tags verif -o ../work/warm/ ./cmd/... 2>&1 || true
+  go build -tags verif -race -o ../work/warm/ ./cmd/... 2>&1 || true; rm -rf ../work/warm
 fi
 echo setup ok
